@@ -17,6 +17,10 @@ CLAIMED = {
    text="TLC enumerates override chains over three conftest levels, same file, plugin and third-party (Layouts_chain.cfg); each is replayed on the real library, every column of every overriding def line is probed for go-to-definition and references, every test at depth 0..2 must bind to the innermost override.",
    note="Chains of length <= 5 over the fixed directory skeleton; two registration orders per chain.",
    technique="TLA+ case table (TLC) + replay, per-column probes of def lines"),
+ "C03": dict(level=MC, ref="DESIGN.md section 4 C03",
+   text="Extract.tla states the documented extraction rules over an abstract function record and TLC enumerates the feature product group by group (decorator spelling/form/placement, parameter kinds, body x return annotation, docstring layouts); every record is rendered, re-extracted by an independent CPython-based implementation of the rules (must equal the specification, else tool error) and analysed by the real library; definitions are compared field by field (name, line span, docstring, return type, dependencies, scope, yield line, autouse) and usages as bags; the repository's tests/test_project corpus is compared CPython-vs-analyzer as well.",
+   note="~1500 function records + 22 corpus files; presence inside conditional blocks (documented limitation) and `request` parameters are not judged.",
+   technique="TLA+ rule operators + feature-product table (TLC) + three-way comparison with CPython extraction and the real analyzer"),
  "C04": dict(level=MC, ref="DESIGN.md section 4 C04",
    text="TLC checks Mirror and RefsInverse on the implementation model for every (layout, order); on the real library references(D) is compared with {u : goto(u) = D} for every definition, duplicates and unresolved usages are checked, the reverse index is compared with the per-file usages, CLI-unused equals 'no incoming usage'.",
    note="Internal-consistency oracle (no reference model needed); LSP-level counts are compared in the binary tier when built.",
